@@ -1,3 +1,6 @@
 import Solvor.Flow.Basic
 import Solvor.Flow.EK
-/-! Flow: executable models (no Mathlib imports).  `EK` = max_flow mirror (C08). -/
+import Solvor.Flow.SSP
+/-! Flow: executable models (no Mathlib imports).
+`EK` = max_flow mirror + max-flow checker (C08); `SSP` = min-cost-flow checkers + certifying
+successive-shortest-paths reference (C09). -/
